@@ -325,6 +325,11 @@ def check_handle_yield(ck):
         ck.ob("C37.handle-yield", hy, c, (donef, False) in facts[nd.id], "a wake-up on the future is registered only when it is not done yet")
         cb = c.args[1]
         nested = {nf.name: nf for nf in ck.repo.nested(hy) if nf.parent is hy}
+        if isinstance(cb, ast.Name) and cb.id not in nested:
+            from ..x_sync import resolve_callable_name
+            r_ = resolve_callable_name(ck.repo, hy, cb.id)
+            if r_ is not None:
+                nested[cb.id] = r_
         if isinstance(cb, ast.Name) and cb.id in nested:
             inner = ck.use(nested[cb.id])
             calls = [x for x in own_walk(inner.node) if isinstance(x, ast.Call)]
